@@ -172,6 +172,18 @@ func execute(pr *pair, env *stateEnv, id *caseID) *verdict {
 	if v.Key != "" {
 		return v
 	}
+	// Once per method and process, when the receive block carries descendants: before anything confirms it, a momentum of
+	// a pillar that has not seen the pooled blocks goes by (an empty momentum received from a peer). The node re-derives
+	// its pool; whatever it keeps or lets go of, the inbox must still be worked off afterwards.
+	if len(blk.DescendantBlocks) > 0 && !foreignDone[c.Name+"."+id.Method] {
+		foreignDone[c.Name+"."+id.Method] = true
+		if err := P.ProduceForeignEmptyMomentum(0); err != nil {
+			v.violate("harness:foreign-momentum-refused", fmt.Sprintf("the elected pillar's empty momentum is refused: %v", err))
+			return v
+		}
+		v.Steps++
+		foreignMomentums++
+	}
 	// the probe is queued behind the call; the next momentum confirms the receive and the probe, then the producer works
 	// off every inbox (the probe, and whatever the receive sent to other contracts)
 	probe, err := P.Submit(probeCall(c, regimes[env.Regime]))
@@ -239,6 +251,10 @@ func execute(pr *pair, env *stateEnv, id *caseID) *verdict {
 	v.Steps++
 	return v
 }
+
+// foreignDone: methods for which the foreign-momentum variant has been executed in this process
+var foreignDone = map[string]bool{}
+var foreignMomentums int
 
 func contractNameOf(a types.Address) string {
 	for _, c := range contracts {
